@@ -1,5 +1,6 @@
 import ChemProofs.Drv.Util
 import ChemProofs.Model.Poisson
+import ChemProofs.Model.PoissonRange
 import ChemProofs.Spec.PeaksSpec
 import ChemProofs.Gen.Consts
 /- Driver for pattern operations (C13, C14), Poisson (C15) and charge handling (C10). -/
@@ -117,6 +118,17 @@ def runPoissonCase (line : String) : String :=
         let margins := (ratios.take (min n (maxIter - 1))).map (relMargin · (1 - t))
         toString n ++ ":" ++ minMargin margins ++ ":" ++ toString nspec))
     | _, _ => "bad-args"
+  | ["poissonr", mass, n, z] =>
+    -- the model WITH the `is_finite` branch (Model/PoissonRange.lean), and the smallest relative distance of any loop
+    -- variable from the range boundary (the two roundings of `p_i` / `factorial_acc` themselves are not modelled)
+    match parseRat? mass, n.toNat?, z.toInt? with
+    | some m, some n, some z =>
+      let lam := m / lamF
+      let states := (List.range (n - 1)).foldl (fun (acc : List PoisState × PoisState) i =>
+        let s' := pNext lam acc.2 (i + 1); (acc.1 ++ [s'], s')) ([], ⟨1, 1⟩)
+      let margins := states.1.flatMap (fun s => [relMargin s.p f64Max, relMargin s.f f64Max])
+      "ok * " ++ showPeaks (poissonR f64Max m n z lamF ns pr) ++ "\t" ++ minMargin margins
+    | _, _, _ => "bad-args"
   | ["poissoni", mass, n, z, lf] =>
     match parseRat? mass, n.toNat?, z.toInt?, parseRat? lf with
     | some m, some n, some z, some lf => "ok * " ++ showPeaks (poisson m n z lf ns pr)
